@@ -53,7 +53,7 @@ theorem cached_failed_row_consistent :
 /-! non-vacuity: a recorder history with a running, a done, a cached, a failed and a CSE-failed job -/
 def exampleOps : List RecOp :=
   [.recordValue 1 false, .recordValue 2 true, .recordCallNode 10 1, .recordCallNode 20 2,
-   .jobStart 100 (some 7), .jobStart 101 none, .jobStart 102 none, .jobStart 103 none, .jobStart 104 none,
+   .jobStart 100 (some 7) none, .jobStart 101 none none, .jobStart 102 none (some 10), .jobStart 103 none none, .jobStart 104 none (some 20),
    .jobEnd 101 false 10, .jobEnd 102 true 10, .jobEnd 103 false 20, .jobEnd 104 true 20]
 example : queryJobs [.running] (runRec exampleOps) = some [100] := by decide
 example : queryJobs [.done] (runRec exampleOps) = some [101] := by decide
